@@ -370,6 +370,7 @@ class GenV:
         self.event = None
         self.inner_depth = 0
         self.resume_depth = 0
+        self.pygen = None       # a generator expression: stepped by a generator of the evaluator itself (no thread needed: its body is one expression)
 
 
 class _GenClose(BaseException):
@@ -2142,21 +2143,25 @@ class Interp:
         if isinstance(src, Seq) and src.has_seg():
             s = self.ex_ListComp(e, fr)
             return IterV(s.items) if not s.has_seg() else s
-        node = getattr(e, "_verif_genfunc", None)
-        if node is None:
-            body = ast.Expr(value=ast.Yield(value=e.elt))
-            for i in range(len(e.generators) - 1, -1, -1):
-                g = e.generators[i]
-                inner = body
-                if g.ifs:
-                    inner = ast.If(test=g.ifs[0] if len(g.ifs) == 1 else ast.BoolOp(op=ast.And(), values=list(g.ifs)), body=[inner], orelse=[])
-                body = ast.For(target=g.target, iter=ast.Name(id="_verif_genexp_source", ctx=ast.Load()) if i == 0 else g.iter, body=[inner], orelse=[])
-            node = ast.FunctionDef(name="<genexpr>", args=ast.arguments(posonlyargs=[], args=[ast.arg(arg="_verif_genexp_source")], vararg=None, kwonlyargs=[], kw_defaults=[], kwarg=None, defaults=[]),
-                                   body=[body], decorator_list=[], returns=None, type_params=[])
-            ast.copy_location(node, e)
-            ast.fix_missing_locations(node)
-            e._verif_genfunc = node
-        return self.call(self.make_func(node, fr, "<genexpr>"), [src], {})
+        cfr = Frame(fr.module, {}, cls=fr.cls, self_obj=fr.self_obj, func=fr.func, env=fr)
+        if fr.is_class:
+            cfr.env = fr.env
+        gens = e.generators
+
+        def rec(i):
+            g_ = gens[i]
+            it = src if i == 0 else self.ev(g_.iter, cfr)
+            for x in self.live_iter(it):
+                self.assign(g_.target, x, cfr)
+                if all(self.truth(self.ev(c, cfr)) for c in g_.ifs):
+                    if i + 1 < len(gens):
+                        yield from rec(i + 1)
+                    else:
+                        yield self.ev(e.elt, cfr)
+
+        gv = GenV(None, cfr)
+        gv.pygen = rec(0)
+        return gv
 
     def ex_SetComp(self, e, fr):
         out = []
@@ -2472,6 +2477,19 @@ class Interp:
         (g.ret / g.exc hold how)."""
         if g.done:
             return False
+        if g.pygen is not None:
+            if g.trace is None:
+                g.trace = []
+            try:
+                g.trace.append(next(g.pygen))
+                return True
+            except StopIteration:
+                g.done, g.pygen = True, None
+                return False
+            except Raised as e:
+                g.done, g.pygen = True, None
+                g.exc = e
+                return False
         w = self.w
         g.resume_depth = w.depth
         if g.thread is None:
@@ -2507,6 +2525,9 @@ class Interp:
         now; a generator that was never started, or has finished, is just marked closed"""
         if g.done:
             return
+        if g.pygen is not None:
+            g.pygen.close()
+            g.pygen = None
         if g.thread is None:
             g.done = True
             if g.trace is None:
